@@ -6,3 +6,4 @@ INVARIANT LogFlat
 INVARIANT RatioLaw
 INVARIANT SigmaCapped
 INVARIANT KOnlyWithLinear
+INVARIANT ZSqEven
